@@ -1339,6 +1339,8 @@ class ListNode(SyntaxNodeBase):
                     try_reverse_expansion(shortcut, i, last_end)
                 else:
                     shortcut = None
+                    # the value may have become a jump, which no value node can print
+                    check_for_orphan_jump(new_vals[i])
             # otherwise it is actually a value to expand as well
             else:
                 if shortcut is not None:
